@@ -292,8 +292,8 @@ CASES = [
     ('NT', 2, (50, 2), 1, ['cc'], (0, 2)),       # big-blind ante, short small blind
     ('NT', 3, (2, 3, 50), 1, ['cc'], (0, 2, 0)),
     ('NT', 3, (20, 50, 50), 1, ['fRr', 'fRc']),  # a folded player keeps chips, the shover is covered
-    ('F7S', 2, (3, 3), 1, ['bc']),               # stud: everybody all-in on third street
-    ('FR', 3, (3, 9, 3), 1, ['bcc']),
+    ('F7S', 2, (3, 3), 1, ['brc', 'rc']),         # stud: everybody all-in on third street
+    ('FR', 3, (3, 9, 3), 1, ['brcc']),
     ('NT', 3, (50, 20, 5), 1, ['ccc', 'Rcc', 'Rcf', 'ff', 'rRcc']),
     ('FT', 2, (9, 30), 1, ['crrc', 'rrrrc', 'cc']),
     ('PO', 2, (40, 40), 2, ['cc', 'Rc']),
